@@ -352,6 +352,14 @@ def double_boundary(sx):
     name = ["tri", "tri2"][sx.choice("mesh", 2)]
     V, faces = SURF[name]
     mesh = meshgen.build(meshgen.generic_coords(V), (), faces)
+    queried = sx.flag("everything_queried_before")
+    if queried:
+        # fill every cache of the input mesh first: connectivity, border / interior lists, face-kind flags
+        for v in range(V):
+            mesh.connectivity.vertex_to_faces(v)
+            mesh.is_vertex_on_border(v)
+        _ = (mesh.boundary_edges, mesh.interior_edges, mesh.boundary_vertices, mesh.interior_vertices, mesh.is_triangular(), mesh.is_quad())
+    P0 = [tuple(float(x) for x in p) for p in mesh.vertices]
     try:
         out = split_double_boundary_edges_triangles(mesh)
     except Exception as e:
@@ -359,6 +367,24 @@ def double_boundary(sx):
         return
     rf = [tuple(int(x) for x in f) for f in out.faces]
     nv = len(out.vertices)
+    sx.check(bool(out.is_triangular()) == all(len(f) == 3 for f in rf) and bool(out.is_quad()) == all(len(f) == 4 for f in rf),
+             "is_triangular / is_quad of the returned mesh describe its faces")
+    # the mesh passed in: unchanged, or equal to the result in every answer
+    mf = [tuple(int(x) for x in f) for f in mesh.faces]
+    if out is not mesh:
+        unchanged = mf == [tuple(f) for f in faces] and [tuple(float(x) for x in p) for p in mesh.vertices] == P0
+        if unchanged:
+            try:
+                surfcheck.check_all(sx, mesh, V, faces, tag=" [input of split_double_boundary_edges_triangles, afterwards]")
+            except Exception as e:
+                sx.check(False, "connectivity query raised on the input mesh after split_double_boundary_edges_triangles", detail=repr(e))
+        else:
+            sx.check(mf == rf and len(mesh.vertices) == nv, "the mesh passed in is afterwards unchanged or equal to the result, never half-updated")
+            if mf == rf and len(mesh.vertices) == nv and oracle.is_manifold(nv, rf):
+                try:
+                    surfcheck.check_all(sx, mesh, nv, rf, tag=" [input of split_double_boundary_edges_triangles, afterwards]", any_edge_order=True)
+                except Exception as e:
+                    sx.check(False, "connectivity query raised on the input mesh after split_double_boundary_edges_triangles", detail=repr(e))
     ok = all(0 <= v < nv for f in rf for v in f) and oracle.is_manifold(nv, rf)
     sx.check(ok, "split_double_boundary_edges_triangles returns a valid mesh")
     if ok:
